@@ -28,9 +28,9 @@ from harness import synthwiki, tlc
 PROPERTY = "C11"
 LEVEL = "model_checking"
 
-ACTIONS = ["StartFH", "StartH1", "StartFU", "StartReq", "StartDL", "StartGET", "StartNB", "NBBody", "WakeH", "WakeS",
-           "RespH1", "RespUBMore", "RespUBFinal", "RespET", "RespER", "RespII", "RespGET", "RespNB",
-           "RespIP", "RespIE", "JoinBlocks", "Dispatch", "Join"]
+ACTIONS = ["DoStartFH", "DoStartH1", "DoStartFU", "DoStartReq", "DoStartDL", "DoStartGET", "DoStartNB", "DoWakeH", "DoWakeS",
+           "DoRespH1", "DoRespUBMore", "DoRespUBFinal", "DoRespET", "DoRespER", "DoRespII", "DoRespGET", "DoRespNBPing",
+           "DoRespNB", "DoRespIP", "DoRespIE", "DoJoinBlocks", "Dispatch", "Join"]
 
 MC_CFG = """SPECIFICATION Spec
 CONSTANTS
@@ -76,23 +76,24 @@ def model_check(ctx):
     total_s = total_t = 0
     runs = []
     # (name, cfg): every dimension of the family is varied; the cross product is bounded per plan
-    if quick:
+    if quick:      # ~3.5e5 distinct states
         plans = [
-            ("books", mc_cfg(["single"], [1, 2, 3, 9, 11], [1, 2], [1, 2])),
-            ("redirects", mc_cfg(["single", "dead", "chain", "cycle", "none"], [5, 6, 7, 8, 12], [2], [1, 2])),
+            ("books", mc_cfg(["single"], [1, 2, 9, 11], [1, 2], [1, 2])),
+            ("two", mc_cfg(["single"], [3], [2], [2])),
+            ("redirects", mc_cfg(["single", "dead", "chain", "cycle", "none"], [5, 6, 7, 12], [2], [1, 2])),
+            ("shared-redirect", mc_cfg(["single", "cycle"], [8], [2], [2])),
             ("noimages+html", mc_cfg(["single"], [1, 6, 9], [1, 2], [2], img=(False,), html=(True,))),
-            ("html", mc_cfg(["single"], [2, 5], [1], [2], html=(True,))),
-            ("three", mc_cfg(["single"], [4, 10], [2], [2])),
-            ("uneager", mc_cfg(["single"], [2, 6], [1], [2], eager=False)),
+            ("html", mc_cfg(["single"], [2, 9], [1], [2], html=(True,))),
+            ("uneager", mc_cfg(["single", "dead"], [6, 9, 11], [2], [2], eager=False)),
         ]
-    else:
+    else:          # ~4e6 distinct states
         plans = [
             ("books", mc_cfg(["single"], [1, 2, 3, 9, 11], [1, 2], [1, 2])),
             ("redirects", mc_cfg(["single", "dead", "chain", "cycle", "none"], [5, 6, 7, 8, 12], [1, 2], [1, 2])),
             ("noimages+html", mc_cfg(["single", "cycle"], [1, 3, 6, 8, 9], [1, 2], [1, 2], img=(False,), html=(True,))),
-            ("html", mc_cfg(["single", "chain"], [2, 3, 5, 6], [1, 2], [2], html=(True,))),
-            ("three", mc_cfg(["single", "dead"], [4, 10], [1, 2], [1, 2])),
-            ("uneager", mc_cfg(["single", "cycle"], [1, 2, 5, 6, 9], [1, 2], [2], eager=False)),
+            ("html", mc_cfg(["single", "chain"], [2, 5, 6, 9], [1, 2], [2], html=(True,))),
+            ("three", mc_cfg(["single"], [4, 10], [2], [2])),
+            ("uneager", mc_cfg(["single", "cycle"], [1, 6, 9, 11], [2], [2], eager=False)),
         ]
     for name, cfg in plans:
         res = tlc.run(ctx, "FetcherMC", cfg, name="mc_" + name, timeout=3000, heap="12g")
@@ -105,14 +106,14 @@ def model_check(ctx):
                      "wall_s": round(res.wall, 1)})
         ctx.note("P-MC %-14s %8d distinct states, depth %d, %.0fs" % (name, res.distinct, res.depth, res.wall))
     # liveness (no VIEW trickery needed: `last` is a function of the step) + action coverage
-    res = tlc.run(ctx, "FetcherMC", mc_cfg(["single", "cycle"], [6, 8], [1], [1], html=(True,), extra="PROPERTY Terminates"),
+    res = tlc.run(ctx, "FetcherMC", mc_cfg(["single", "cycle"], [6], [1], [1], html=(True,), extra="PROPERTY Terminates"),
                   name="mc_live", coverage=True, timeout=1500, heap="12g")
     if not res.ok:
         ctx.machinery("liveness/coverage run failed: %s %s\n%s" % (res.kind, res.name, res.out[-2000:]))
     total_s += res.distinct
     total_t += res.generated
     cov = dict(res.coverage)
-    res2 = tlc.run(ctx, "FetcherMC", mc_cfg(["single"], [3], [1], [1], extra="PROPERTY Terminates"),
+    res2 = tlc.run(ctx, "FetcherMC", mc_cfg(["single"], [9], [1], [2], html=(True,), extra="PROPERTY Terminates"),
                    name="mc_live2", coverage=True, timeout=1500, heap="12g")
     if not res2.ok:
         ctx.machinery("liveness/coverage run 2 failed: %s %s\n%s" % (res2.kind, res2.name, res2.out[-2000:]))
@@ -130,7 +131,8 @@ def model_check(ctx):
     for mut, want in (("nosched", ("invariant", "NoDoubleWork")), ("nolist", ("invariant", "Complete")),
                       ("noarm", ("invariant", "NoLeftovers")), ("replace", ("invariant", "Complete")),
                       ("noauthors", ("invariant", "Complete"))):
-        r = tlc.run(ctx, "FetcherMC", mc_cfg(["single"], [3], [1], [1], mut=mut), name="mc_nv_" + mut, timeout=900, heap="8g")
+        r = tlc.run(ctx, "FetcherMC", mc_cfg(["single"], [3] if mut == "nosched" else [1], [1], [1], mut=mut),
+                    name="mc_nv_" + mut, timeout=900, heap="8g")
         nonvac[mut] = [r.kind, r.name]
         if (r.kind, r.name) != want:
             ctx.machinery("non-vacuity: Mut=%s did not violate %s (got %s %s)" % (mut, want[1], r.kind, r.name))
